@@ -1,4 +1,5 @@
 import PymoodeModel.RankCrowd
+import PymoodeModel.Metrics.Diversity
 import PymoodeModel.Drv.Common
 namespace Pymoode.Drv
 open Pymoode Pymoode.Proto
@@ -68,6 +69,8 @@ def domOn (fs : List (List Float)) (j i : Nat) : Bool :=
   dominates (fs.getD j []) (fs.getD i [])
 
 structure SurvRec where
+  metric : Option Metric      -- crowding metric of the survival (none: not checked)
+  compiled : Bool
   cls : String
   n : Nat
   nSurvive : Nat
@@ -82,7 +85,46 @@ structure SurvRec where
   crowd : List CrowdCall
   sorts : List SortCall
 
+def parseMetricOpt (s : String) : Option Metric :=
+  match s with
+  | "cd" => some .cd
+  | "pcd" => some .pcd
+  | "ce" => some .ce
+  | "mnn" => some .mnn
+  | "2nn" => some .twonn
+  | _ => none
+
+def distTies (f : List (List Float)) (nObj : Nat) : Bool :=
+  let xs := normalizeCols f nObj
+  let n := xs.length
+  (List.range n).any fun i =>
+    let row := (List.range n).filter (· != i) |>.map fun j =>
+      if i < j then sqDist (xs.getD i []) (xs.getD j []) else sqDist (xs.getD j []) (xs.getD i [])
+    let s := row.mergeSort fun a b => !(b < a)
+    let rec dup : List Float → Bool
+      | a :: b :: r => a == b || dup (b :: r)
+      | _ => false
+    dup s
+
+/-- do the crowding values recorded for one front equal the model's? -/
+def crowdValuesOk (metric : Metric) (compiled : Bool) (ff : List (List Float)) (nRemove : Int)
+    (vals : List Float) : Bool :=
+  let nObj := match ff with | [] => 0 | r :: _ => r.length
+  let neg (x : Float) : Float := -x
+  let (d, errs) := crowding Float.log2 neg metric compiled ff nObj (Float.ofNat nObj) nRemove
+  if compiled && metric == .pcd && !errs.isEmpty then true      -- undefined behaviour (known finding)
+  else if compiled && (metric == .mnn || metric == .twonn) && distTies ff nObj then true
+  else
+    d.length == vals.length && (List.zip d vals).all fun (m, v) =>
+      let mv := m.toFloat
+      if metric == .ce then
+        (mv == v) || (Float.abs (mv - v) <= 1e-9 * (if Float.abs mv < 1.0 then 1.0 else Float.abs mv))
+      else mv == v
+
 def parseSurv : P SurvRec := do
+  let mtok ← tok
+  let compiled ← bool
+  let metric := parseMetricOpt mtok
   let cls ← tok
   let n ← nat
   let nSurvive ← nat
@@ -100,7 +142,7 @@ def parseSurv : P SurvRec := do
   let crowd ← listOf parseCrowd
   kw "SORTS"
   let sorts ← listOf parseSort
-  return { cls, n, nSurvive, constr, f, g, h, cv, feasFlag, splits, nds, crowd, sorts }
+  return { metric, compiled, cls, n, nSurvive, constr, f, g, h, cv, feasFlag, splits, nds, crowd, sorts }
 
 /-- run one `RankAndCrowding._do` on the sub-population `sub` (positions of the input population):
 checks the oracle contracts and the arguments the oracles were called with -/
@@ -123,6 +165,12 @@ def rncInner (r : SurvRec) (sub : List Nat) (nS : Nat) (nds : NdsCall) (crowd : 
     if c.len != fr.length then throw s!"pre: crowding function called on {c.len} points for a front of {fr.length}"
     if c.nRemove != Int.ofNat nr then
       throw s!"crowding function called with n_remove={c.nRemove} for front {k}, model forwards {nr}"
+    match r.metric with
+    | some metric =>
+      let ff := fr.map fun i => fsub.getD i []
+      if !crowdValuesOk metric r.compiled ff c.nRemove c.vals then
+        throw s!"crowding values recorded for front {k} ({fr.length} points, n_remove={c.nRemove}) differ from the model's metric"
+    | none => pure ()
     if nr > 0 then
       match sorts[sUsed]? with
       | none => throw "pre: no recorded argsort for a front that does not fit"
